@@ -501,6 +501,14 @@ class Body:
                 v = op.get("txt", "?")
             item = op.get("item")
             if item and "promoted" in op:
+                # promoted constant of this body: inline its value expression
+                pf = self.facts.fns.get("%s::promoted[%s]" % (item, op["promoted"]))
+                if pf is not None and len(stack) < 40:
+                    pb = self.facts.body(pf["path"])
+                    try:
+                        return pb.local_expr(0)
+                    except RecursionError:
+                        pass
                 item = None
             return ("const", v, ty, item)
         return ("other", op.get("txt", "?"))
@@ -992,9 +1000,13 @@ class FactsAnalysis:
 
     MAX_ALTS = 16
 
-    def __init__(self, body, kill_on_mut_calls=False):
+    def __init__(self, body, kill_on_mut_calls=False, kill_fields=True):
         self.b = body
         self.kill_on_mut_calls = kill_on_mut_calls
+        # kill_fields=False gives the pure "this was checked before, on these operands" reading:
+        # only re-assigned local variables invalidate a fact, writes to fields do not (used where a
+        # sink legitimately sits *after* the state update that the guard authorised)
+        self.kill_fields = kill_fields
         self.lit_places = {}
         self.edge_lits = {}
         self._compute_edge_lits()
@@ -1177,6 +1189,8 @@ class FactsAnalysis:
         return ks
 
     def _apply_kills(self, alts, kills):
+        if not self.kill_fields:
+            kills = [k for k in kills if re.fullmatch(r"(var|arg)\d+", k)]
         if not kills:
             return alts
         out = set()
